@@ -67,6 +67,32 @@ theorem div_three_le {x k : Nat} (hk : 3 ≤ k) : 3 * (x / k) ≤ x := by
   have h2 : 3 * (x / 3) ≤ x := Nat.mul_div_le x 3
   omega
 
+theorem computeSpaceOther_ok {s : S} (h : Inv s) (hp : s.port ≠ .telnet) :
+    ∃ s' sp, computeSpaceOther s = .ok (s', sp) ∧ SpaceOK s s' sp := by
+  have hlen := h.textLen
+  have hse := h.se
+  have hem := h.eMax
+  have har : asciiReserve = 1 := rfl
+  have hM : 2 ≤ MAXT := by decide
+  unfold computeSpaceOther
+  rw [if_neg (by omega)]
+  have hsl : (slice s.text s.tstart s.tend).length = s.tend - s.tstart := slice_length _ _ _ (by omega)
+  have hw : 0 + (slice s.text s.tstart s.tend).length ≤ s.text.length := by omega
+  have ht : ∃ t, (if s.tstart > 0 then writeAt s.text 0 (slice s.text s.tstart s.tend) else .ok s.text) = .ok t ∧
+      t.length = MAXT := by
+    split
+    · exact ⟨_, writeAt_ok hw, by rw [writeAt_length (writeAt_ok hw)]; exact hlen⟩
+    · exact ⟨_, rfl, hlen⟩
+  obtain ⟨t, ht1, ht2⟩ := ht
+  rw [ht1]
+  dsimp only
+  rw [if_neg (by omega)]
+  split
+  · exact ⟨_, _, rfl, ⟨⟨ht2, Nat.le_refl _, by dsimp only; omega, h.dec⟩, rfl, rfl, rfl, rfl, fun hh => absurd hh hp,
+      by dsimp only; omega, by omega⟩⟩
+  · exact ⟨_, _, rfl, ⟨⟨ht2, Nat.zero_le _, by dsimp only; omega, h.dec⟩, rfl, rfl, rfl, rfl, fun hh => absurd hh hp,
+      by dsimp only; omega, by omega⟩⟩
+
 theorem computeSpace_ok {s : S} (h : Inv s) : ∃ s' sp, computeSpace s = .ok (s', sp) ∧ SpaceOK s s' sp := by
   obtain ⟨hd1, hd2, hd3, hc, har, hdisc, hthr, hdpos⟩ := space_rule_numbers
   have hlen := h.textLen
@@ -105,41 +131,8 @@ theorem computeSpace_ok {s : S} (h : Inv s) : ∃ s' sp, computeSpace s = .ok (s
     · simp only [c2, if_false]
       have := div_three_le (x := MAXT - s.tend - 1) hd1
       exact ⟨_, _, rfl, ⟨h, rfl, rfl, rfl, rfl, fun _ => by omega, by omega, by omega⟩⟩
-  | ascii =>
-    simp only
-    have c1 : ¬ (s.tend + asciiReserve > MAXT) := by
-      have : asciiReserve = 1 := rfl
-      omega
-    rw [if_neg c1]
-    by_cases c2 : MAXT - s.tend - asciiReserve = 0
-    · simp only [c2, if_true]
-      exact ⟨_, _, rfl, ⟨⟨hlen, Nat.le_refl _, by dsimp only; decide, h.dec⟩, hp.symm, rfl, rfl, rfl, fun hh => by simp [hp] at hh,
-        by dsimp only; decide, by decide⟩⟩
-    · simp only [c2, if_false]
-      exact ⟨_, _, rfl, ⟨h, rfl, rfl, rfl, rfl, fun hh => by simp [hp] at hh, by omega, by omega⟩⟩
-  | binary =>
-    simp only
-    have c1 : ¬ (s.tend + asciiReserve > MAXT) := by
-      have : asciiReserve = 1 := rfl
-      omega
-    rw [if_neg c1]
-    by_cases c2 : MAXT - s.tend - asciiReserve = 0
-    · simp only [c2, if_true]
-      exact ⟨_, _, rfl, ⟨⟨hlen, Nat.le_refl _, by dsimp only; decide, h.dec⟩, hp.symm, rfl, rfl, rfl, fun hh => by simp [hp] at hh,
-        by dsimp only; decide, by decide⟩⟩
-    · simp only [c2, if_false]
-      exact ⟨_, _, rfl, ⟨h, rfl, rfl, rfl, rfl, fun hh => by simp [hp] at hh, by omega, by omega⟩⟩
-  | console =>
-    simp only
-    have c1 : ¬ (s.tend + asciiReserve > MAXT) := by
-      have : asciiReserve = 1 := rfl
-      omega
-    rw [if_neg c1]
-    by_cases c2 : MAXT - s.tend - asciiReserve = 0
-    · simp only [c2, if_true]
-      exact ⟨_, _, rfl, ⟨⟨hlen, Nat.le_refl _, by dsimp only; decide, h.dec⟩, hp.symm, rfl, rfl, rfl, fun hh => by simp [hp] at hh,
-        by dsimp only; decide, by decide⟩⟩
-    · simp only [c2, if_false]
-      exact ⟨_, _, rfl, ⟨h, rfl, rfl, rfl, rfl, fun hh => by simp [hp] at hh, by omega, by omega⟩⟩
+  | ascii => simp only; exact computeSpaceOther_ok h (by rw [hp]; decide)
+  | binary => simp only; exact computeSpaceOther_ok h (by rw [hp]; decide)
+  | console => simp only; exact computeSpaceOther_ok h (by rw [hp]; decide)
 
 end NV.C13
